@@ -1422,10 +1422,10 @@ func (in *Interp) globalCell(g *ssa.Global) *Cell {
 }
 
 var initSkip = []string{"runtime", "internal/", "syscall", "os", "reflect", "sync", "unsafe", "time", "net", "crypto", "plugin",
-	"google.golang.org/", "golang.org/x/net", "golang.org/x/sys", "github.com/prometheus/", "go.uber.org/", "github.com/coreos/etcd",
+	"google.golang.org/", "golang.org/x/net/http2", "golang.org/x/net/trace", "golang.org/x/net/internal", "golang.org/x/net/idna", "golang.org/x/sys", "github.com/prometheus/", "go.uber.org/", "github.com/coreos/etcd",
 	"github.com/cockroachdb/", "github.com/dgraph-io/", "github.com/shirou/", "testing", "flag", "log", "encoding/json", "html", "text/template",
 	"mime", "compress", "archive", "database", "debug", "go/", "image", "expvar", "regexp", "github.com/golang/protobuf", "github.com/gogo/protobuf",
-	"github.com/absolute8511/glog", "github.com/coreos/pkg", "vsym", "fmt", "math/rand", "math/big", "os/", "path", "context", "unicode"}
+	"github.com/absolute8511/glog", "github.com/coreos/pkg", "vsym", "fmt", "math/rand", "math/big", "os/", "path", "unicode"}
 
 func initSkipped(path string) bool {
 	if path == "unicode/utf8" || path == "internal/bytealg" || path == "internal/itoa" || path == "internal/byteorder" {
